@@ -57,9 +57,17 @@ def run_scenario(ck, binp, name, readers, ms, rounds, tag):
             continue  # mismatch detail records are attached to the summary failure below
         ops = int(r.get("ops", 0))
         ck.count(ops)
+        if r.get("ok", False) and ops < (1 if name == "syncfan" else 5):  # syncfan counts whole sync rounds
+            ck.fail_obligation("harness-volume:" + name, "scenario %s completed only %d operations: inconclusive, not a pass" % (name, ops))
         if ops > 0:
             ck.nontrivial((name, readers, ms, rounds))
         ck.extra.setdefault("scenarios", []).append({"k": name, "ops": ops, "ok": r.get("ok"), "params": r.get("params")})
+        if not r.get("ok", False) and str(r.get("what", "")).startswith("harness:"):
+            if not tag.endswith("-retry"):
+                ck.notes.append("scenario %s: harness-internal failure (%s), retried" % (name, r.get("what", "")[:120]))
+                return run_scenario(ck, binp, name, readers, ms, rounds, tag + "-retry")
+            ck.fail_obligation("harness-internal:" + name, "scenario %s could not be set up twice (%s): inconclusive, rerun" % (name, r.get("what", "")[:300]))
+            continue
         if not r.get("ok", False):
             details = [x for x in recs if x.get("sub")][:3]
             if r.get("hang"):
@@ -84,12 +92,15 @@ def run_scenario(ck, binp, name, readers, ms, rounds, tag):
         txt = open(f, errors="replace").read()
         if "DATA RACE" in txt:
             reports.append(txt)
-    if reports:
-        txt = reports[0]
+    seen_sites = set()
+    for txt in [x for rp in reports for x in rp.split("==================") if "DATA RACE" in x]:
         m = re.search(r"lisk-engine/(pkg/\S+?)\(\)", txt)
-        site = m.group(1) if m else "unknown"
+        site = m.group(1) if m else ("harness" if "verifharness" in txt else "unknown")
+        if site in seen_sites:
+            continue
+        seen_sites.add(site)
         f = dict(kind="schedule", key="c20:%s:race:%s" % (name, site),
-                 what="Go race detector reported a data race in scenario %s at %s (%d reports)" % (name, site, txt.count("DATA RACE")),
+                 what="Go race detector reported a data race in scenario %s at %s" % (name, site),
                  case=dict(params, race_report=txt[:6000]), expected="no race report", observed="WARNING: DATA RACE",
                  theorem_or_correspondence="harness/cmd/c20 scenario %s built with -race" % name)
         f["spec_violated"] = True
@@ -118,6 +129,17 @@ def run(ck):
                     c = json.loads(line)
                     run_scenario(ck, binp, c["scenario"], c.get("readers", 8), c.get("ms", 400), c.get("rounds", 60), "corpus%d" % i)
                     i += 1
+    # positive control of the -race path: a deliberately racy scenario built and run the same way MUST be reported
+    ck.obligations += 1
+    for f in glob.glob(os.path.join(ck.work, "race_canary.*")):
+        os.remove(f)
+    ck.run_harness(binp, ["-scenario", "canary", "-ms", "50"], timeout=120, out_name="canary.jsonl",
+                   env_extra={"GORACE": "log_path=%s exitcode=0 halt_on_error=0" % os.path.join(ck.work, "race_canary")})
+    if any("DATA RACE" in open(f, errors="replace").read() for f in glob.glob(os.path.join(ck.work, "race_canary.*"))):
+        ck.discharged += 1
+    else:
+        ck.fail_obligation("race-canary", "the deliberately racy canary scenario produced no race report: the -race path is inoperative, "
+                           "every 'no race' verdict of this run is void")
     readers, ms, rounds = (8, 1500, 150) if ck.tier == "quick" else (16, 10000, 500)
     for s in SCENARIOS:
         run_scenario(ck, binp, s, readers, ms, rounds, s)
@@ -127,10 +149,10 @@ def run(ck):
                       "scenario runs that completed operations, distinct by (scenario, readers, duration, rounds)")
     ck.extra["traces_validated_against_impl"] = len(ck.extra.get("scenarios", []))
     if summ:
-        ck.extra["skeleton_translator"] = {k: summ.get(k) for k in ("functions", "lock_order", "nesting", "assumed_live_sends", "fanouts", "opaque_calls")}
+        ck.extra["skeleton_translator"] = {k: summ.get(k) for k in ("functions", "lock_order", "nesting", "guarded_selects", "fanouts", "go_sites", "multi_reads", "atomic_ops", "opaque_calls")}
     ck.assume += ["sync.RWMutex blocks new readers once a writer waits (writer-preferring), sync.Mutex = write mode only",
-                  "event subscribers keep receiving (EventEmitter sends under its lock are treated as opaque calls): " +
-                  ", ".join((summ or {}).get("assumed_live_sends", [])),
+                  "selects with a default or quit arm are steps, not blocking operations (Guarded): " +
+                  ", ".join((summ or {}).get("guarded_selects", [])),
                   "opaque calls made while a lock is held (db reads, codec, callbacks) return",
                   "schedules explored by the race detector are those the Go scheduler produced in this run"]
     if ck.tier == "thorough":
